@@ -4,7 +4,7 @@ import warnings
 
 import numpy as np
 
-from ..core import SimFault, SimBudget, HarnessError, choice
+from ..core import SimFault, SimBudget, HarnessError, choice, weighted
 from ..families import make_data, make_affinity, build_model, FAMILIES
 from ..seams import World, ModelHarness, SCHED_KINDS
 
@@ -97,3 +97,185 @@ class quiet:
 
     def messages(self):
         return [str(w.message) for w in self.caught]
+
+
+# ---------------------------------------------------------------------------------------------------------------------
+# Call histories shared by the scenarios: the judged operation is preceded by other public calls on the SAME object
+# (earlier fits on other data, interrupted and rejected fits, read-only calls, hyper-parameter changes, the user
+# changing the contents of his own array between two calls).  All oracles stay attached during the prefix.
+# ---------------------------------------------------------------------------------------------------------------------
+
+def sample_param_change(rng, cfg):
+    """A legal set_params(**{name: value}) for the family of cfg (JSON value), GEMINI-related parameters included."""
+    from ..families import FAMILIES, KERNELS, METRICS, GEMINI_NAMES, sample_groups
+    fam = FAMILIES[cfg["family"]]
+    p = cfg["params"]
+    opts = [["max_iter", rng.randint(1, 3)], ["learning_rate", choice(rng, [1e-3, 1e-2, 0.1])],
+            ["solver", choice(rng, ["adam", "sgd"])], ["random_state", rng.randrange(10000)], ["verbose", rng.random() < 0.5]]
+    if fam["batched"]:
+        opts.append(["batch_size", choice(rng, [None, 1, 2, 3, 5])])
+    if fam["gem"] == "mmd" and p.get("kernel") != "precomputed":
+        opts += [["kernel", choice(rng, KERNELS)], ["kernel", choice(rng, KERNELS)], ["ovo", rng.random() < 0.5]]
+    if fam["gem"] == "wass" and p.get("metric") != "precomputed":
+        opts += [["metric", choice(rng, METRICS)], ["metric", choice(rng, METRICS)], ["ovo", rng.random() < 0.5]]
+    if fam["gem"] == "generic" and not isinstance(p.get("gemini"), dict):
+        opts += [["gemini", choice(rng, GEMINI_NAMES)], ["gemini", choice(rng, GEMINI_NAMES)]]
+    if fam.get("reg"):
+        opts.append(["reg", choice(rng, [0.0, 0.1, 1.0])])
+    if fam.get("kernelrim") and not str(p.get("base_kernel", "")).startswith("callable"):
+        opts += [["base_kernel", choice(rng, ["linear", "rbf", "laplacian", "polynomial"])]] * 2
+    if fam.get("sparse"):
+        opts.append(["alpha", choice(rng, [0.05, 0.5, 2.0])])
+        if cfg["d"] >= 2:
+            opts += [["groups", choice(rng, [None, sample_groups(rng, cfg["d"])])]] * 2
+        if fam.get("mlp"):
+            opts.append(["M", choice(rng, [0.5, 2.0, 10.0])])
+    if fam.get("mlp"):
+        opts.append(["n_hidden_dim", rng.randint(1, 5)])
+    return choice(rng, opts)
+
+
+def sample_prefix(rng, cfg, max_len=4, p_any=0.35, allow_path=True, allow_mutate=True):
+    """A random prefix of public calls executed on the object before the judged operation ([] in most runs)."""
+    from ..families import FAMILIES
+    if rng.random() > p_any:
+        return []
+    fam = FAMILIES[cfg["family"]]
+    kinds = [("fit", 3), ("crash_fit", 2.5), ("set_params", 3), ("score", 1), ("predict", 1), ("bad_fit", 1)]
+    if allow_mutate:
+        kinds.append(("mutate_data", 1.5))
+    if fam.get("sparse") and cfg["d"] >= 2 and allow_path:
+        kinds += [("path", 1.5), ("crash_path", 1), ("nan_path", 1)]
+    ops = []
+    for _ in range(rng.randint(1, max_len)):
+        k = weighted(rng, kinds)
+        op = {"op": k}
+        if k in ("fit", "crash_fit", "score", "predict", "bad_fit", "mutate_data", "path", "crash_path", "nan_path"):
+            op["data"] = rng.randrange(2)
+        if k in ("crash_fit", "crash_path"):
+            op["crash"] = {"seam": weighted(rng, [("opt", 3), ("gemini", 2)]), "at": rng.randint(1, 6)}
+        if k == "nan_path":
+            op["nan_at"] = rng.randint(1, 40)
+        if k in ("path", "crash_path", "nan_path"):
+            op["args"] = {"alpha_multiplier": choice(rng, [2.0, 5.0]), "min_features": rng.randint(1, cfg["d"]),
+                          "max_patience": 1, "restore_best_weights": rng.random() < 0.5}
+        if k == "set_params":
+            op["change"] = sample_param_change(rng, cfg)
+        if k == "bad_fit":
+            op["bad"] = choice(rng, [["n_clusters", 0], ["learning_rate", -1.0], ["max_iter", 0]])
+        if k == "mutate_data":
+            op["how"] = choice(rng, ["scale", "shift", "reverse_rows"])
+        ops.append(op)
+    return ops
+
+
+def second_dataset(cfg, rng_seed_offset=1):
+    """A second dataset of the same width for histories: same number of samples in half of the configs (what a cache keyed
+    by shape would confuse), another number otherwise."""
+    from ..families import make_data, make_affinity
+    c = dict(cfg)
+    n2 = cfg.get("n2", cfg["n"])
+    c["n"] = n2
+    X = make_data(c, rng_seed_offset)
+    return X, make_affinity(c, X)
+
+
+def run_generic_op(op, model, world, pool, cur_cfg, res, log):
+    """Executes one non-judged history op.  Returns an outcome string.  Library exceptions are part of the history."""
+    kind = op["op"]
+    X, A = pool[op["data"]] if "data" in op else (None, None)
+    world.begin_op()
+    world.n_eval = 0
+    world.opt_raise_at = None
+    saved_fault = world.gemini_fault
+    world.gemini_fault = None
+    log.emit("OP", op=kind, phase="begin", prefix=True)
+    outcome = "ok"
+    try:
+        if kind in ("crash_fit", "crash_path"):
+            c = op["crash"]
+            if c["seam"] == "opt":
+                world.opt_raise_at = c["at"]
+            else:
+                world.gemini_fault = {"kind": "raise", "at": c["at"]}
+        if kind == "nan_path":
+            world.gemini_fault = {"kind": "nan", "at": op["nan_at"]}
+        if kind in ("fit", "crash_fit"):
+            model.fit(X, A)
+        elif kind in ("path", "crash_path", "nan_path"):
+            model.path(X, A, **op.get("args", {}))
+        elif kind == "score":
+            model.score(X, A)
+        elif kind == "predict":
+            model.predict(X)
+        elif kind == "set_params":
+            name, val = op["change"]
+            if name in model.get_params():
+                model.set_params(**{name: val})
+                cur_cfg["params"][name] = val
+                if name in ("kernel", "metric", "base_kernel"):
+                    # a sensible user drops the parameters of the previous kernel/metric together with it
+                    pn = name + "_params"
+                    if pn in model.get_params():
+                        model.set_params(**{pn: None})
+                        cur_cfg["params"][pn] = None
+        elif kind == "bad_fit":
+            name, val = op["bad"]
+            if name in model.get_params():
+                old = model.get_params()[name]
+                model.set_params(**{name: val})
+                try:
+                    model.fit(X, A)
+                    outcome = "accepted"
+                except (SimFault, SimBudget):
+                    raise
+                except Exception as e:
+                    if is_harness_frame(e):
+                        raise
+                    outcome = "rejected"
+                    res.fault("invalid_param_fit")
+                model.set_params(**{name: old})
+        elif kind == "mutate_data":
+            # the user changes the contents of HIS array between two calls (same object, other values)
+            if op["how"] == "scale":
+                X *= 1.7
+            elif op["how"] == "shift":
+                X += 0.9
+            else:
+                X[:] = X[::-1].copy()
+            if A is not None:
+                from ..families import make_affinity
+                c = dict(cur_cfg)
+                c["n"] = len(X)
+                A[:] = make_affinity(c, X)
+            res.fault("user_mutates_own_array")
+    except SimFault:
+        outcome = "crashed"
+    except SimBudget:
+        raise
+    except Exception as e:
+        if is_harness_frame(e):
+            raise
+        outcome = "raised:" + type(e).__name__
+    finally:
+        world.opt_raise_at = None
+        world.gemini_fault = saved_fault
+    log.emit("OP", op=kind, phase="end", outcome=outcome.split(":")[0], prefix=True)
+    res.probe("prefix_" + kind + ("" if outcome == "ok" else "_" + outcome.split(":")[0]))
+    return outcome
+
+
+class devnull_stdout:
+    """verbose=True estimators print progress: keep the workers quiet."""
+
+    def __enter__(self):
+        import io
+        import sys
+        self._old = sys.stdout
+        sys.stdout = io.StringIO()
+        return self
+
+    def __exit__(self, *a):
+        import sys
+        sys.stdout = self._old
+        return False
